@@ -36,6 +36,10 @@ func init() {
 			customConfigOverrides(r)
 			c10IdleJudgedOnOwnerRecord(r)
 			c10OwnedCountByCurrentOwner(r)
+			c10LRUSampleSize(r)
+			c10TTLUpdateDoesNotEvict(r)
+			c10CompactionKeepsAccessTimes(r)
+			c10LimitsJudgedOnCurrentStats(r)
 			c10EvictionScansEveryPartition(r)
 			c10LRUSampleUnfiltered(r)
 			kvLookupVisitsEveryTable(r)
